@@ -89,6 +89,9 @@ def run(ctx, res):
             if k in ('sqltable', 'sqlquery') and ctx.rng.random() < 0.5:
                 c['sources'][0]['types'] = ['TEXT'] + ['TEXT COLLATE NOCASE'] * 3      # the collation of a column is not part of its values
             variants.append(c); meta.append((t, r0['impl'], k, False))
+            if k == 'frame':
+                c2 = copy.deepcopy(c); c2['sources'][0]['dup_index'] = True      # the same table as a frame whose index labels repeat
+                variants.append(c2); meta.append((t, r0['impl'], k, False))
         for k in ('csv', 'json', 'parquet'):
             c = copy.deepcopy(t)
             c['sources'][0]['kind'] = k
